@@ -383,11 +383,13 @@ def _run_multi(case, rec: Recorder):
             o, no = _ma_obs(kind, ids, ai)
             code = np.asarray([i * 100 + ai for i in ids], dtype=np.float32)
             a = code[:, None] * np.ones((1, 2), dtype=np.float32)
-            r = code.copy()
+            # rewards: integral for even ids, with a quarter on top for odd ids; un-vectorised callers hand them over as
+            # Python ints resp. floats, as environments do (0 / 1 on plain steps, 0.5 on bonus steps)
+            r = code + np.asarray([0.25 * (i % 2) for i in ids], dtype=np.float32)
             d = np.asarray([i % 2 for i in ids], dtype=np.float32)
             if not vect:
                 o, no = _unbatch(o), _unbatch(no)
-                a, r, d = a[0], float(r[0]), bool(d[0])
+                a, r, d = a[0], (float(r[0]) if ids[0] % 2 else int(r[0])), bool(d[0])
             state[ag], action[ag], reward[ag], nstate[ag], done[ag] = o, a, r, no, d
         fields = [state, action, reward, nstate, done]
         if shuffle_keys:
@@ -413,6 +415,8 @@ def _run_multi(case, rec: Recorder):
                         rec.violate("row_integrity", "field_not_uniform", where, field=name, agent=ag, row=r)
                 per_field[name] = [v - off for v in lo]
             dlo, _ = _row_vals(dn[ag], n)
+            # the quarter an odd transition's reward carries (see build): taken off with the id read from the action
+            per_field["reward"] = [v - 0.25 * (divmod(int(b), 100)[0] % 2) for v, b in zip(per_field["reward"], per_field["action"])]
             for r in range(n):
                 codes = {f: per_field[f][r] for f in per_field}
                 base = codes["action"]
